@@ -1718,6 +1718,10 @@ pub struct ConnectionH2<Front: SocketHandler> {
     /// requirement, not a nicety — see the RFC 9113 encoder-decoder
     /// synchronisation contract (§6.5.2).
     pub pending_table_size_update: Option<u32>,
+    /// RFC 7541 §4.2: the smallest table size the peer set since our last header
+    /// block, when several SETTINGS_HEADER_TABLE_SIZE changes arrived in between
+    /// (it is signalled before the final size).
+    pub pending_table_size_min: Option<u32>,
     /// Reusable buffer for HPACK-encoded headers in the H2 block converter.
     pub converter_buf: Vec<u8>,
     /// Reusable buffer for lowercasing header keys in the H2 block converter.
@@ -1949,6 +1953,7 @@ impl<Front: SocketHandler> ConnectionH2<Front> {
             },
             highest_peer_stream_id: 0,
             pending_table_size_update: None,
+            pending_table_size_min: None,
             converter_buf: Vec::new(),
             lowercase_buf: Vec::new(),
             cookie_buf: Vec::new(),
@@ -2914,6 +2919,7 @@ impl<Front: SocketHandler> ConnectionH2<Front> {
             // DATA-only write pass (no header block) does not drop the
             // signal.
             pending_table_size_update: self.pending_table_size_update,
+            pending_table_size_min: self.pending_table_size_min,
             size_update_emitted: false,
             // Reset on every write pass; `check_header_capacity` flips it
             // mid-call and `finalize` commits the abort by flipping
@@ -3285,6 +3291,7 @@ impl<Front: SocketHandler> ConnectionH2<Front> {
         drop(converter);
         if size_update_emitted {
             self.pending_table_size_update = None;
+            self.pending_table_size_min = None;
         }
         // Account every RST that the converter emitted during this pass
         // (pre-prepare gate + post-prepare HPACK over-budget abort) so
@@ -5918,6 +5925,13 @@ impl<Front: SocketHandler> ConnectionH2<Front> {
                     // Without it, the peer's decoder keeps its previous (possibly
                     // larger) table cap and our encoder-side change is silent
                     // — conformance suites (h2spec `hpack/4.2`) will flag it.
+                    // Several changes before our next header block: the smallest
+                    // size of the interval is signalled first (RFC 7541 §4.2).
+                    self.pending_table_size_min = Some(
+                        self.pending_table_size_min
+                            .or(self.pending_table_size_update)
+                            .map_or(capped, |low| low.min(capped)),
+                    );
                     self.pending_table_size_update = Some(capped);
                 },
                 parser::SETTINGS_ENABLE_PUSH       => { self.peer_settings.settings_enable_push = v == 1;             is_error |= v > 1 },
